@@ -81,6 +81,7 @@ fn run23(ctx: &mut Ctx) {
             if *ext { ctx.count("labels.external"); }
             if by_addr[addr].len() > 1 { ctx.count("labels.sharing-an-address"); }
             if g.a.label_def.get(name).is_some_and(|(si, _)| matches!(g.stmts[*si].k, K::End)) { ctx.count("labels.on-end"); }
+            if g.a.label_def.get(name).is_some_and(|(si, _)| matches!(g.stmts[*si].k, K::External(_))) { ctx.count("labels.on-external-line"); }
         }
         if let Some((sig, what)) = crate::asmutil::diff_labels(&g.a, sym) { ctx.violation(&format!("label_iter:{sig}"), what, case()); return; }
         // absent names
@@ -97,7 +98,7 @@ fn run23(ctx: &mut Ctx) {
 }
 fn guard23(m: &Merged, _t: Tier) -> Vec<String> {
     let mut out = vec![];
-    for k in ["queries.as-written", "queries.upper", "queries.lower", "queries.random-case", "queries.absent", "labels.external", "labels.sharing-an-address", "labels.on-end", "programs.with-repeated-label"] { need(m, &mut out, k, 50); }
+    for k in ["queries.as-written", "queries.upper", "queries.lower", "queries.random-case", "queries.absent", "labels.external", "labels.sharing-an-address", "labels.on-end", "labels.on-external-line", "programs.with-repeated-label"] { need(m, &mut out, k, 50); }
     out
 }
 
